@@ -228,6 +228,9 @@ pub struct RecvLog {
     pub reads: usize,
     /// false: the explorer may not cut chunks or answer Pending (one chunk, immediately)
     pub explore: bool,
+    /// the Reset has been reported once: real quinn 0.11 then treats the stream as completely read and
+    /// answers Ok(None) from then on (checked on real Quinn by quinnreal)
+    pub reset_reported: bool,
 }
 
 /// A fault on the write side: from the `after`-th `poll_write` call on, every call fails.
@@ -406,7 +409,14 @@ impl RecvStream {
         if avail == 0 {
             return match g.end.clone().unwrap_or(RecvEnd::Open) {
                 RecvEnd::Fin => Poll::Ready(Ok(None)),
-                RecvEnd::Reset(c) => Poll::Ready(Err(ReadError::Reset(VarInt(c)))),
+                RecvEnd::Reset(c) => {
+                    if g.reset_reported {
+                        Poll::Ready(Ok(None))
+                    } else {
+                        g.reset_reported = true;
+                        Poll::Ready(Err(ReadError::Reset(VarInt(c))))
+                    }
+                }
                 RecvEnd::ConnectionLost(e) => Poll::Ready(Err(ReadError::ConnectionLost(e))),
                 RecvEnd::ClosedStream => Poll::Ready(Err(ReadError::ClosedStream)),
                 RecvEnd::Open => Poll::Pending, // nothing will ever wake this read
